@@ -42,7 +42,9 @@ InitState ==
     cols |-> [t \in Tab |-> <<>>], tsid |-> [t \in Tab |-> 0], tlen |-> [t \in Tab |-> 0],
     reg |-> [s \in Sid |-> {}], fpv |-> [o \in Obj |-> NoMemo], fpt |-> [t \in Tab |-> NoMemo],
     cmap |-> [t \in Tab |-> <<>>],
-    uown |-> {} ]          \* ghost: vectors the program created as standalone objects (never a table's)
+    uown |-> {},           \* ghost: vectors the program created as standalone objects (never a table's)
+    everfp |-> {} ]        \* ghost: objects whose fingerprint() has EVER been called (C16: "whether or not it had
+                           \* been called, and cached, earlier") - keeps such histories apart in the explored graph
 
 LiveVec(S) == S.live \cap Obj
 LiveTab(S) == S.live \cap Tab
@@ -91,7 +93,8 @@ Settle(S0) ==
         !.fpv = [o \in Obj |-> IF o \in L THEN S0.fpv[o] ELSE NoMemo],
         !.fpt = [t \in Tab |-> IF t \in L THEN S0.fpt[t] ELSE NoMemo],
         !.cmap = [t \in Tab |-> IF t \in L THEN S0.cmap[t] ELSE <<>>],
-        !.uown = S0.uown \cap L ]
+        !.uown = S0.uown \cap L,
+        !.everfp = S0.everfp \cap L ]
 
 Out(S, r) == [st |-> Settle(S), res |-> r]
 Same(S, r) == [st |-> S, res |-> r]
@@ -162,7 +165,7 @@ WriteVec(S, o, i, x, s) ==
                      !.fpt = fpt1], "Ok")
 
 (* v.fingerprint(): returns a function of the current contents; memoises it *)
-ReadFpV(S, o) == Same([S EXCEPT !.fpv[o] = IF @ = NoMemo THEN <<Contents(S, o)>> ELSE @],
+ReadFpV(S, o) == Same([S EXCEPT !.fpv[o] = IF @ = NoMemo THEN <<Contents(S, o)>> ELSE @, !.everfp = @ \cup {o}],
                       IF S.fpv[o] = NoMemo THEN "Ok" ELSE "OkCached")
 FpResultV(S, o) == IF S.fpv[o] = NoMemo THEN Contents(S, o) ELSE S.fpv[o][1]
 
@@ -230,8 +233,9 @@ ColumnMemos(S, t) ==         \* computing the table's fingerprint memoises every
 ReadFpT(S, t) ==
   IF "TableFpMemo" \in Devs
     THEN Same([S EXCEPT !.fpt[t] = IF @ = NoMemo THEN <<TableContents(S, t)>> ELSE @,
-                        !.fpv = IF S.fpt[t] = NoMemo THEN ColumnMemos(S, t) ELSE @], "Ok")
-    ELSE Same([S EXCEPT !.fpv = ColumnMemos(S, t)], "Ok")
+                        !.fpv = IF S.fpt[t] = NoMemo THEN ColumnMemos(S, t) ELSE @,
+                        !.everfp = @ \cup {t} \cup ColumnsOf(S, t)], "Ok")
+    ELSE Same([S EXCEPT !.fpv = ColumnMemos(S, t), !.everfp = @ \cup {t} \cup ColumnsOf(S, t)], "Ok")
 FpResultT(S, t) == IF S.fpt[t] = NoMemo THEN TableContents(S, t) ELSE S.fpt[t][1]
 
 (* ------------------------------------------------------------------ names *)
